@@ -576,16 +576,28 @@ func ruleDrainFailure(r *Run, rule, state, owner string, wantBlockFailed bool) {
 		if p.Exit != ExitReturn {
 			continue
 		}
-		// last range event on the channel and whether a non-nil element was seen
-		var rs *ast.RangeStmt
+		// the elements received from the channel on this path (range variable, or the variable a
+		// plain receive is bound to) and whether one of them was found non-nil
+		elems := map[types.Object]bool{}
 		failing := false
 		at := -1
 		for j, e := range p.Ev {
-			if e.Kind == EvRange && chanOwner(info, e.Chan) == owner {
-				rs = e.Clause.(*ast.RangeStmt)
+			if e.Kind == EvRange && e.Taken && chanOwner(info, e.Chan) == owner {
+				if rs := e.Clause.(*ast.RangeStmt); rs.Key != nil {
+					if o := ObjOf(info, rs.Key); o != nil {
+						elems[o] = true
+					}
+				}
 			}
-			if rs != nil && rs.Key != nil && e.Kind == EvBranch && e.Cond != nil {
-				if x, op, ok := IsNilCompare(info, e.Cond); ok && SameObj(info, x, rs.Key) && (op == token.NEQ) == e.Taken {
+			if e.Kind == EvRecv && chanOwner(info, e.Chan) == owner {
+				if as, ok := e.Node.(*ast.AssignStmt); ok && len(as.Lhs) >= 1 {
+					if o := ObjOf(info, as.Lhs[0]); o != nil {
+						elems[o] = true
+					}
+				}
+			}
+			if len(elems) > 0 && e.Kind == EvBranch && e.Cond != nil {
+				if x, op, ok := IsNilCompare(info, e.Cond); ok && elems[ObjOf(info, x)] && (op == token.NEQ) == e.Taken {
 					failing = true
 					at = j
 				}
@@ -755,8 +767,8 @@ func ruleGroupState(r *Run, rule, state, owner, group, failOwner string) {
 					excused = true
 				}
 			}
-			// a failure element drained earlier in the state (PlanPostChecks) also ends it
-			if e.Kind == EvRange {
+			// a failure element received earlier in the state from a continuous-check channel (PlanPostChecks) also ends it
+			if (e.Kind == EvRange || e.Kind == EvRecv) && chanOwner(info, e.Chan) != "" {
 				excused = true
 			}
 		}
